@@ -143,6 +143,8 @@ def oracle_fwd(ck, dims, m, J, filt, x, tol=0.0, named=None):
 def run_oracle(ck, n_int, n_named):
     rng = ck.rng
     import pywt
+    # deterministic witness of the recorded finding (length-4 filters on a length-2 signal, periodization)
+    rt.guard(ck, oracle_fwd, ck, 1, 2, 1, (np.array([1., 2., 3., 4.]), np.array([2., -1., 3., 1.])), np.array([[[1., 2.]]]))
     for it in range(n_int):
         L = 2 * rng.randint(1, 6 if ck.tier == 'quick' else 10)
         m = rng.choice(gen.MODES5); J = rng.randint(1, 3)
